@@ -573,15 +573,29 @@ func (t *transpiler) evaluateBlock(block parser.Block) error {
 	if length == 0 {
 		return t.converter.Nop()
 	}
-	for index, statement := range body {
+	codeEmitted := false
+
+	for _, statement := range body {
 		err := t.evaluate(statement)
 
 		if err != nil {
 			return err
 		}
-		if index == length-1 {
-			return nil
+
+		// An expression whose value is not used (e.g. a literal, a variable or itoa) might not emit any code.
+		switch statement.StatementType() {
+		case parser.STATEMENT_TYPE_FUNCTION_CALL, parser.STATEMENT_TYPE_APP_CALL:
+			codeEmitted = true
+		default:
+			if _, isExpression := statement.(parser.Expression); !isExpression {
+				codeEmitted = true
+			}
 		}
+	}
+
+	// A block must not be empty in the target language.
+	if !codeEmitted {
+		return t.converter.Nop()
 	}
 	return nil
 }
